@@ -103,7 +103,10 @@ class AstBuilder:
             kw = {}
             if not token.attr.get('is_reference', False):
                 kw['default_value'] = token.compile()
-            node_id = self.dsp.add_data(data_id=token.node_id, **kw)
+            try:
+                node_id = self.dsp.add_data(data_id=token.node_id, **kw)
+            except ValueError:  # A name that is also a function of the formula.
+                raise FormulaError()
         else:
             node_id = token.node_id
         self.nodes[token] = node_id
